@@ -320,8 +320,11 @@ impl<'tcx> Cx<'tcx> {
             Const::Ty(_, ct) => {
                 if let Some(v) = ct.try_to_leaf() {
                     o.str("int", &format!("{}", v.to_bits_unchecked()));
+                    None
+                } else {
+                    // valtree constants (e.g. string literals in match patterns)
+                    c.const_.eval(tcx, typing_env, c.span).ok()
                 }
-                None
             }
             _ => None,
         };
